@@ -15,7 +15,7 @@ def run(ctx):
     nbase = 10 if ctx.quick else 150
     wfs, kinds = [], []
     for i in range(nbase):
-        prof = dict(max_steps=rng.choice([1, 2, 3, 4]), p_tag=rng.choice([0.0, 0.3, 0.6]), p_waitfor=0.3, p_deployexpr=0.2, p_enabled=0.3, engine_outputs=True, p_sum=0.8)
+        prof = dict(max_steps=rng.choice([1, 2, 3, 4]), p_tag=rng.choice([0.0, 0.3, 0.6]), p_waitfor=0.3, p_deployexpr=0.2, p_enabled=0.3, engine_outputs=True, p_sum=0.8, p_loop=0.25)
         wf, oc, script, inp = gen.gen_workflow(rng, prof)
         wfs.append(wf)
         kinds.append('valid')
